@@ -166,7 +166,8 @@ class Rec:
         rows = self.read_rows() if self.db else []
         name = "none" if exc is None else ("RuntimeError" if type(exc) is RuntimeError else "Other")
         with self.lock:
-            self.events.append({"ev": "end", "exc": name, "final": final, "failed": failed, "rows": rows})
+            self.events.append({"ev": "end", "exc": name, "final": final, "failed": failed, "rows": rows,
+                                "excmsg": "" if exc is None else "%s: %s" % (type(exc).__name__, str(exc)[:200])})
 
     def read_rows(self):
         """rows of the individuals table, read through an independent connection"""
@@ -245,6 +246,36 @@ class _StoreProxy:
         return getattr(self.real, name)
 
 
+def quiesce(rec, timeout=10.0):
+    """After an exception has reached the caller of a threaded batch the other workers may still be running: wait until no
+    objective call is in flight and every successful return has been followed by its store synchronisation."""
+    import time
+    t0 = time.time()
+    stable = 0
+    last = -1
+    while time.time() - t0 < timeout:
+        with rec.lock:
+            state = {}
+            for e in rec.events:
+                if e["ev"] == "call":
+                    state[e["k"]] = "incall"
+                elif e["ev"] == "ret":
+                    state[e["k"]] = "tosync" if e["out"] == "ok" else "idle"
+                elif e["ev"] == "sync":
+                    state[e["k"]] = "idle"
+            busy = [k for k, v in state.items() if v != "idle"]
+            n = len(rec.events)
+        if not busy and n == last:
+            stable += 1
+            if stable >= 3:
+                return True
+        else:
+            stable = 0
+        last = n
+        time.sleep(0.01)
+    return False
+
+
 def evaluate_batch(rec, workers=1, rounds=1):
     """Algorithm.evaluate on the recorded batch; returns the exception seen by the caller (or None)."""
     from artap.algorithm import DummyAlgorithm
@@ -261,5 +292,7 @@ def evaluate_batch(rec, workers=1, rounds=1):
             if isinstance(e, (KeyboardInterrupt, SystemExit)) or type(e).__name__ == "MachineryError":
                 raise
             exc = e
+            if workers > 1:
+                quiesce(rec)
             break
     return exc
